@@ -41,7 +41,8 @@ def bufstep(prof, quick, thorough, steps=40):
 
 
 CHAN_MODEL = ("rapid state machine over bigbuff.Channel inside a synctest bubble (virtual poll ticks): source buffered (cap 1/4) or "
-              "unbuffered (harness feeder), rate in {default,50us,1ms}, parent ctx nil/cancellable; rules feed(1-3), get (launched; ctx "
+              "unbuffered (harness feeder), element type int/interface{}/string/struct{} and bidirectional or receive-only, rate in {default,50us,1ms}, parent ctx nil/cancellable/already "
+              "cancelled at construction; rules feed(1-3), get (launched; ctx "
               "nil/bg/cancellable/pre-cancelled), cancelGet, advance(1-3 poll periods), commit, rollback, close, cancelParent, closeSource; "
               "model (fed, taken, committed, replay, closed) checked after every step: Get value/error/enabledness, Buffer() == taken-but-uncommitted, "
               "source accounting, Done, no zero values from a closed source, nothing taken after close, goroutine-leak check at the end. ")
@@ -121,7 +122,9 @@ EXCL_MODEL = ("rapid state machine over bigbuff.Exclusive in a synctest bubble: 
 EXCL_FREE = (" Plus exclfree: free-running concurrent programs in a bubble (2-8 caller goroutines x 1-5 calls of every style on 1-3 keys, work functions yielding before/after "
              "resolve, Gosched bursts at the library's runner-start / after-work instrumentation points) with history oracles: per-key overlap counter inside the work functions, exactly "
              "one outcome per call, produced by an execution of its key begun after the call was stamped, never an earlier one, resolve-not-called only from a non-resolving execution, no "
-             "closure twice, every Start followed by an execution, no per-key state or goroutine left.")
+             "closure twice, every Start followed by an execution, no per-key state or goroutine left; work functions that resolve from two goroutines released together with different values "
+             "(all callers answered by that execution must see the same one); in one case of eight 64-120 further keys are present at once while a slow work function runs on key 0, "
+             "which is called again afterwards while the slow one is still running. The stepper also passes one ExclusiveRateLimit option VALUE to calls under different keys.")
 
 
 def exclfree(prof, quick, thorough):
@@ -196,7 +199,8 @@ CONFIG = {
     },
     "C11": {
         "rule": ("generated concurrent programs per type (Buffer+consumers incl. shared consumer/SetCleanerConfig/Range, Channel, Exclusive, Workers, Worker, Notifier, WaitCond, "
-                 "context combinators: 2-6 goroutines x 1-8 drawn operations inside the documented contracts, pointer payloads written just before hand-over and read just after receipt), "
+                 "context combinators: 2-6 goroutines x 1-8 drawn operations inside the documented contracts, pointer payloads written just before hand-over and read just after receipt; Buffer programs "
+                 "reuse their Put argument slices, open bursts of 9-12 short-lived consumers and in a quarter of the cases keep no standing consumer), "
                  "plus the free-running ChanPubSub, ChanCaster, Buffer, Exclusive, Channel and shared-consumer program generators of the other properties, all executed by a -race binary; oracle = Go race detector reports with a library frame in a "
                  "conflicting access (signature = the racing pair of library functions). non-trivial = a program in which >=2 operations on the same object overlapped in time "
                  "(pairs of overlapping methods are listed in the class histogram); distinct = hash of the generated program."),
@@ -324,7 +328,9 @@ CONFIG = {
         "rule": ("rapid-generated function signatures (reflect.FuncOf over a 19-type grammar, 0-4 params, optional "
                  "variadic tail, 0-3 results) with a reflect.MakeFunc recorder; argument lists correct or perturbed "
                  "(dropped/extra/retyped/untyped-nil/typed-nil), result option none|CallResults|CallResultsSlice "
-                 "correct or perturbed; oracle = verdict computed from Go assignability + direct-call comparison. "
+                 "correct or perturbed; optionally a second CallArgs option and/or a second results option earlier in the same Call (options are validated in order, the last of each kind is in "
+                 "effect, the targets of an overridden results option stay untouched) and the same CallArgs option value applied to a second callable; oracle = verdict computed from Go "
+                 "assignability + direct-call comparison. "
                  "non-trivial = variadic or >=2-parameter signature with >=1 nil-valued or perturbed argument/target; "
                  "distinct = hash of (signature, argument types/nilness, result targets, expected verdict)."),
         "assumptions": ["reflect.Type.AssignableTo implements Go assignability", "CallArgs is always supplied (statement's domain)"],
